@@ -199,15 +199,28 @@ CHECKS = {
         technique="TLA+ specs cons/Combinators.tla (and_/or_/not_ as loops over arbitrary member functions on a finite domain, "
                   "randomisation nondeterministic) and cons/Couplers.tla (table algebra) model-checked by TLC; TLC validates "
                   "recorded executions of the real constraints.and_/or_/not_ against Trace_Combinators.tla and TLC-emitted "
-                  "cases are replayed on the real coupler functions",
+                  "cases are replayed on the real coupler functions; cons/Bridges.tla (EXTENDS Couplers, INSTANCE pen/Penalty) states "
+                  "with_penalty / with_constraint / as_penalty / issolution / vectorize / near_integers / has_unique as exact table "
+                  "algebra and unique / impose_unique / solve / as_constraint as post-conditions; TLC checks 26 laws per case and "
+                  "emits every case, harness/c17_bridges.py replays each on the real functions (violation keys bridge:*)",
         text="Design: for the success rule the property demands, the three success claims, exactly one exit path and "
              "termination within max(n, maxiter*n) member calls hold for all 27^n member tuples on |D|=3 (n<=3), all 256^2 "
              "pairs on |D|=4, every input, maxiter 0..3 and every draw outcome; the rule found on the pinned tree (n equal "
              "iterates) is refuted by TLC for and_.  Implementation: 5.6k (quick) / 81.6k (thorough) recorded runs of the real "
              "combinators with table-driven members, scripted random draws and sentinel onexit/onfail are each accepted by "
              "TLC as a run of the specified loop and have the claim evaluated on the returned vector; inner/outer/additive "
-             "and proxies and the penalty and_/or_/not_ are compared value by value on the emitted table class.",
-        note="trusted: TLC, the transcription of the loops, table-driven members (snapped floats), interning of float vectors; "
+             "and proxies and the penalty and_/or_/not_ are compared value by value on the emitted table class.  Bridges "
+             "(growth): for all 9 penalty types x k,h (incl. k=inf, ZeroDivision) x iterations with_penalty(...)(cond) is the "
+             "documented term, zero exactly on the feasible set, error/iter/clear/.func/.ptype as documented, "
+             "additive(p)(cost)=cost+p, issolution(p,x,tol) <=> error<=tol; with_constraint gives the constraint for all four "
+             "coupler types; as_penalty is the type's formula of |c(x)-x|_2 and zero exactly at fixed points on all 1458 "
+             "product/swap tables of {0,.5,1}^2; vectorize row/column-wise; near_integers / has_unique exact; "
+             "unique/impose_unique post-condition for full in None/int/float/set/range/dict/dict+type; solve / as_constraint "
+             "by post-condition (2.7k quick / 21.6k thorough cases, 110 / 1.4k solver runs).",
+        note="bridges: table-driven conditions/constraints; solver post-conditions on linear conditions with >=2 feasible "
+             "lattice points at tol 1e-2 (the docs promise no accuracy), the default differential-evolution solver judged only "
+             "by elitism and a >=90% success rate; specs/cons/Penalty.tla is a link to ../pen/Penalty.tla.  "
+             "trusted: TLC, the transcription of the loops, table-driven members (snapped floats), interning of float vectors; "
              "premises: members deterministic and total, penalty members non-negative at iteration 0; members that raise are "
              "out of scope (and_ swallows TypeError/ValueError from members: observation recorded in the evidence, not judged)",
         design_ref="DESIGN.md section 4/C17"),
